@@ -4,5 +4,8 @@ CONSTANTS
   MaxIno = 5
   GenSteps = 4
   FIX_REPOINT = TRUE
+  OPS = FALSE
+  MASK_ADD = TRUE
+  ALIAS_OPS = FALSE
 INVARIANT Emit
 CHECK_DEADLOCK FALSE
